@@ -91,19 +91,29 @@ Print Assumptions C01_spec_ok_model.
 Theorem C01_history : forall c ops,
   wfb c = true -> c_ops c = ops ->
   forall g p,
-    enum_of (g_triples (w_run (w_init c) ops) g p)
-            (filter (matches p) (sp_content (s_run c [] ops) (scid c g))).
+    enum_of (g_triples (w_run (w_init c) 2 ops) g p)
+            (filter (matches p) (sp_content (s_run c 2 [] ops) (scid c g))).
 Proof. exact history_exact. Qed.
 Print Assumptions C01_history.
 
 (* set operators: the result is exactly union / difference / intersection /
-   symmetric difference (g_step leaves the world unchanged for them) *)
+   symmetric difference ... *)
 Theorem C01_setops : forall c w S b g h,
   Rel c w S ->
-  enum_of (g_bin b w g h) (spec_bin b (sp_content S (scid c g)) (sp_content S (scid c h)))
-  /\ fst (fst (g_step w (GBin b g h))) = w.
-Proof. intros c w S b g h H. split; [now apply g_bin_ok|reflexivity]. Qed.
+  enum_of (g_bin b w g h) (spec_bin b (sp_content S (scid c g)) (sp_content S (scid c h))).
+Proof. intros c w S b g h H. now apply g_bin_ok. Qed.
 Print Assumptions C01_setops.
+
+(* ... and it is a NEW graph in a new store (number nx, not used so far), which
+   stays in play: the world with the result refines the quad set extended by the
+   result graph, every other graph (the operands included) being unchanged; later
+   operations on the result or on the operands are covered by C01_history *)
+Theorem C01_binop_result_in_play : forall c w S nx b g h,
+  Rel c w S -> 2 <= nx -> Fresh w nx ->
+  Rel c (fst (fst (g_step w nx (GBin b g h))))
+      (sp_add_all (scid c (nx, fresh_cid, 0%N)) (spec_bin b (sp_content S (scid c g)) (sp_content S (scid c h))) S).
+Proof. intros c w S nx b g h. apply Rel_bin. Qed.
+Print Assumptions C01_binop_result_in_play.
 
 Theorem C01_spec_bin_reading : forall o a b t,
   In t (spec_bin o a b) <->
@@ -151,22 +161,25 @@ Print Assumptions C01_sobs_ok_reading.
 (* former finding F10b (repaired in the code, the model follows the repair): with the
    historical SimpleMemory.triples, `g -= g` raised after one removal *)
 Theorem C01_hist_simple_isub_alias_refuted :
-  let g := (false, 1, 1)%N in
+  let g := (0%nat, 1%N, 1%N) in
   let w := g_add (g_add (w_init f10b_witness) g (1, 3, 5)%N) g (2, 3, 5)%N in
   snd (g_isub_hist w g g) = true /\ g_triples (fst (g_isub_hist w g g)) g all_pat = [(2, 3, 5)%N]
   /\ g_triples (g_isub w g g) g all_pat = [].
 Proof. exact hist_simple_isub_alias_refuted. Qed.
 Print Assumptions C01_hist_simple_isub_alias_refuted.
 
-(* non-vacuity: two graphs sharing one Memory store, wildcard remove, -=, ^ *)
+(* non-vacuity: two graphs sharing one Memory store, wildcard remove, -=, a
+   difference with an EMPTY right operand whose result then lives its own life *)
 Example C01_nonvacuous :
-  let g1 := (false, 1, 1)%N in let g2 := (false, 2, 2)%N in
-  let c := {| c_simple0 := false; c_simple1 := false; c_handles := [g1; g2];
+  let g1 := (0%nat, 1%N, 1%N) in let g2 := (0%nat, 2%N, 2%N) in let r := (2%nat, 0%N, 1002%N) in
+  let c := {| c_simple0 := false; c_simple1 := false; c_handles := [g1; g2; r];
               c_ops := [(GAdd g1 (1, 3, 5), (1, 3, 5)); (GAdd g2 (1, 3, 5), (1, 3, 5)); (GAdd g2 (1, 3, 6), (1, 3, 5));
                         (GRemove g1 (Some 1, None, None), (1, 3, 5)); (GISub g2 g1, (1, 3, 6));
-                        (GBin OXor g1 g2, (1, 3, 6))]%N |} in
+                        (GBin OSub g2 g1, (1, 3, 6)); (GAdd r (2, 3, 5), (1, 3, 6));
+                        (GRemove g2 (None, None, Some 5), (1, 3, 5))]%N |} in
   wfb c = true /\ spec_ok c (model_obs c) = true
-  /\ sp_content (s_run c [] (c_ops c)) (scid c g2) = [(1, 3, 5); (1, 3, 6)]%N.
+  /\ sp_content (s_run c 2 [] (c_ops c)) (scid c g2) = [(1, 3, 6)]%N
+  /\ sp_content (s_run c 2 [] (c_ops c)) (scid c r) = [(1, 3, 5); (1, 3, 6); (2, 3, 5)]%N.
 Proof. vm_compute. auto. Qed.
 
 (* ------------------------------------------------------------------ *)
